@@ -141,6 +141,11 @@ impl RefMap {
 }
 
 pub struct NodeCtx {
+    /// rendered listener calls since the last query
+    pub calls: Arc<Mutex<Vec<String>>>,
+    pub handles: BTreeMap<u64, (String, Option<chitchat::ListenerHandle>)>,
+    /// listener idx -> prefix, for the subscriptions that are still active
+    pub active: BTreeMap<u64, String>,
     pub refmap: RefMap,
     pub grace: u64,
     pub cc: Chitchat,
@@ -150,6 +155,12 @@ pub struct NodeCtx {
     pub publishes: usize,
     /// (theta num, theta den, initial interval in ticks) for the tie-band test
     pub fd_params: Option<(u64, u64, u64)>,
+    pub max_interval: u64,
+    /// extra liveness predicate as data: (kind, key) with kind "none" | "haskey" | "nokey"
+    pub pred: (String, String),
+    /// per member: (known heartbeat, number of fresh values reported to the failure detector,
+    /// time of the last one) — a harness-side log, independent of the implementation
+    pub hbtrack: BTreeMap<ChitchatId, (u64, u64, u64)>,
     pub watch_rx: watch::Receiver<BTreeMap<ChitchatId, NodeState>>,
     _seeds_tx: watch::Sender<HashSet<std::net::SocketAddr>>,
 }
@@ -254,6 +265,32 @@ impl Exec {
             "events",
             evs.iter().map(|(id, k, v)| plist("e", [p_id(id), hex(k.as_bytes()), hex(v.as_bytes())])),
         )
+    }
+
+    /// `(events ...) (calls ...)`: the events, then the (sorted) listener calls since the last query.
+    fn p_evc(&mut self, slot: u64, evs: &[(ChitchatId, String, String)]) -> String {
+        let mut calls: Vec<String> = match self.nodes.get(&slot) {
+            Some(ctx) => std::mem::take(&mut *ctx.calls.lock().unwrap()),
+            None => Vec::new(),
+        };
+        calls.sort();
+        // C15, stated directly: one call per active subscription whose prefix is a prefix of the key
+        if let Some(ctx) = self.nodes.get(&slot) {
+            let mut expect: Vec<String> = Vec::new();
+            for (node, key, value) in evs {
+                for (idx, pfx) in &ctx.active {
+                    if let Some(stripped) = key.strip_prefix(pfx.as_str()) {
+                        expect.push(plist("l", [idx.to_string(), p_id(node), hex(stripped.as_bytes()), hex(value.as_bytes())]));
+                    }
+                }
+            }
+            expect.sort();
+            if expect != calls {
+                let d = format!("listener calls {:?} but the matching active subscriptions give {:?}", &calls.iter().take(4).collect::<Vec<_>>(), &expect.iter().take(4).collect::<Vec<_>>());
+                self.monitor_hit("C15", "listener-calls", &d[..d.len().min(500)]);
+            }
+        }
+        format!("{} {}", Self::p_events(evs), plist("calls", calls))
     }
 
     fn take_events(ctx: &NodeCtx) -> Vec<(ChitchatId, String, String)> {
@@ -558,6 +595,112 @@ impl Exec {
         }
     }
 
+    /// Everything a node knows except its own copy (for C16: untouched by a foreign SYN).
+    fn fingerprint_others(&self, slot: u64) -> String {
+        let start = self.start;
+        let Some(ctx) = self.nodes.get(&slot) else { return String::new() };
+        let cc = &ctx.cc;
+        let copies: Vec<String> = cc.node_states().iter().filter(|(id, _)| **id != ctx.id).map(|(id, ns)| format!("{}{}", p_id(id), p_ns(ns, start))).collect();
+        let live: BTreeSet<ChitchatId> = cc.live_nodes().cloned().collect();
+        let dead = verif::cc_dead_nodes_with_time(cc);
+        let wins: Vec<String> = verif::cc_windows(cc).iter().map(|(id, (ivs, _, last))| format!("{}{:?}{:?}", p_id(id), ivs, last.map(|t| ticks_of(start, t)))).collect();
+        let own = cc.node_state(&ctx.id).map(|ns| {
+            let kvs: Vec<String> = ns.key_values_including_deleted().map(|(k, v)| format!("{k}={}@{}", v.value, v.version)).collect();
+            format!("{:?}{}{}", kvs, ns.max_version(), ns.last_gc_version())
+        });
+        format!("{copies:?}|{:?}|{:?}|{wins:?}|{:?}|{own:?}", live.iter().map(p_id).collect::<Vec<_>>(), dead.iter().map(|(i, t)| (p_id(i), ticks_of(start, *t))).collect::<Vec<_>>(), verif::cc_gc_memory(cc))
+    }
+
+    /// Harness-side log of heartbeat observations (mirrors the *specified* freshness rule).
+    fn track_heartbeat(&mut self, slot: u64, id: &ChitchatId, hb: u64) {
+        let now = self.now_ticks();
+        let Some(ctx) = self.nodes.get_mut(&slot) else { return };
+        if *id == ctx.id {
+            return;
+        }
+        let e = ctx.hbtrack.entry(id.clone()).or_insert((0, 0, 0));
+        if e.0 == 0 {
+            e.0 = hb;
+        } else if hb > e.0 {
+            e.0 = hb;
+            e.1 += 1;
+            e.2 = now;
+        }
+    }
+
+    /// Drops tracker entries of members whose copy is gone, re-bases entries whose heartbeat was
+    /// set behind the tracker's back (setcopy).
+    fn sync_tracker(&mut self, slot: u64) {
+        let Some(ctx) = self.nodes.get_mut(&slot) else { return };
+        let present: BTreeMap<ChitchatId, u64> =
+            ctx.cc.node_states().iter().map(|(id, ns)| (id.clone(), u64::from(ns.heartbeat()))).collect();
+        ctx.hbtrack.retain(|id, _| present.contains_key(id));
+    }
+
+    /// C10 / C11 / C12 stated directly on the implementation after a liveness evaluation.
+    fn liveness_monitor(&mut self, slot: u64) {
+        let now = self.now_ticks();
+        let Some(ctx) = self.nodes.get(&slot) else { return };
+        let Some((num, den, init)) = ctx.fd_params else { return };
+        let maxi = ctx.max_interval;
+        let live: BTreeSet<ChitchatId> = ctx.cc.live_nodes().cloned().collect();
+        let dead: BTreeSet<ChitchatId> = ctx.cc.dead_nodes().cloned().collect();
+        let mut hits: Vec<(&str, String)> = Vec::new();
+        if !live.is_disjoint(&dead) {
+            hits.push(("C12", "live and dead sets intersect".to_string()));
+        }
+        if !live.contains(&ctx.id) || dead.contains(&ctx.id) || ctx.cc.node_state(&ctx.id).is_none() {
+            hits.push(("C12", "the local node is not live / was removed".to_string()));
+        }
+        for (id, (_known, reports, last)) in &ctx.hbtrack {
+            if ctx.cc.node_state(id).is_none() {
+                continue;
+            }
+            if live.contains(id) && *reports < 2 {
+                hits.push(("C11", format!("member {:?} is live after only {} fresh heartbeat report(s)", id.node_id, reports)));
+                hits.push(("C10", format!("member {:?} is live after only {} fresh heartbeat report(s)", id.node_id, reports)));
+            }
+            if *reports >= 1 {
+                let silent = (now - last) as u128 * den as u128;
+                let limit = num as u128 * maxi.max(init) as u128;
+                if silent > limit && (live.contains(id) || !dead.contains(id)) {
+                    hits.push(("C10", format!(
+                        "member {:?}: no fresh heartbeat for {} ticks (> threshold x max(max_interval, initial_interval) = {}/{} ticks) but it is not reported dead",
+                        id.node_id, now - last, limit, den)));
+                }
+            }
+        }
+        for id in ctx.cc.node_states().keys() {
+            if *id != ctx.id && live.contains(id) == dead.contains(id) {
+                hits.push(("C12", format!("after the evaluation member {:?} is in {} of the live/dead sets", id.node_id, if live.contains(id) { "both" } else { "neither" })));
+            }
+        }
+        // C13: the watch value lists exactly the live members passing the predicate, each snapshot
+        // with the member's current max version
+        {
+            let held = ctx.watch_rx.borrow().clone();
+            let passes = |ns: &NodeState| match ctx.pred.0.as_str() {
+                "haskey" => ns.contains_key(&ctx.pred.1),
+                "nokey" => !ns.contains_key(&ctx.pred.1),
+                _ => true,
+            };
+            let expect: BTreeMap<ChitchatId, u64> = live
+                .iter()
+                .filter_map(|id| ctx.cc.node_state(id).filter(|ns| passes(ns)).map(|ns| (id.clone(), ns.max_version())))
+                .collect();
+            let got: BTreeMap<ChitchatId, u64> = held.iter().map(|(id, ns)| (id.clone(), ns.max_version())).collect();
+            if expect != got {
+                hits.push(("C13", format!(
+                    "watch channel holds {:?} but the live members passing the predicate are {:?}",
+                    got.iter().map(|(i, v)| (i.node_id.clone(), *v)).collect::<Vec<_>>(),
+                    expect.iter().map(|(i, v)| (i.node_id.clone(), *v)).collect::<Vec<_>>())));
+            }
+        }
+        for (p, d) in hits {
+            self.monitor_hit(p, "liveness", &d);
+        }
+    }
+
     /// Is some member's exact phi within a relative 1e-9 of the threshold right now?
     fn in_tie_band(&self, slot: u64) -> bool {
         let Some(ctx) = self.nodes.get(&slot) else { return false };
@@ -638,7 +781,7 @@ impl Exec {
                 let evs = Self::take_events(self.nodes.get(&slot)?);
                 self.check_own_copy(slot, &["C06", "C04"], &what[..what.len().min(80)]);
                 let node = self.p_node(slot);
-                Some((line, plist("ok", [Self::p_events(&evs), node])))
+                Some((line, plist("ok", [self.p_evc(slot, &evs), node])))
             }
             Err(_) => {
                 self.poisoned = true;
@@ -674,6 +817,10 @@ impl Exec {
                     dead_node_grace_period: dur(f[5].nat()?),
                 };
                 let pred = a.get(5)?.tagged("pred")?;
+                let pred_spec: (String, String) = (
+                    pred.first()?.atom()?.to_string(),
+                    pred.get(1).and_then(|k| k.string()).unwrap_or_default(),
+                );
                 let extra: Option<Box<dyn Fn(&NodeState) -> bool + Send>> = match pred.first()?.atom()? {
                     "none" => None,
                     "haskey" => {
@@ -729,7 +876,7 @@ impl Exec {
                 // initial key-values fired no listener (none was subscribed yet); the model reports
                 // them, so reconstruct them from the state for comparison.
                 let init_events: Vec<(ChitchatId, String, String)> = Vec::new();
-                let ctx = NodeCtx { refmap: RefMap::default(), grace, cc, id: id.clone(), events, callbacks, publishes: 0, fd_params: Some((f[0].nat()?, f[1].nat()?, f[4].nat()?)), watch_rx, _seeds_tx: seeds_tx };
+                let ctx = NodeCtx { calls: Arc::new(Mutex::new(Vec::new())), handles: BTreeMap::new(), active: BTreeMap::new(), refmap: RefMap::default(), grace, cc, id: id.clone(), events, callbacks, publishes: 0, fd_params: Some((f[0].nat()?, f[1].nat()?, f[4].nat()?)), max_interval: f[3].nat()?, pred: pred_spec.clone(), hbtrack: BTreeMap::new(), watch_rx, _seeds_tx: seeds_tx };
                 self.nodes.insert(slot, ctx);
                 self.resync_ref(slot);
                 let node = self.p_node(slot);
@@ -818,6 +965,10 @@ impl Exec {
                     return Some((line, p_panic(&take_panic())));
                 }
                 let _ = Self::take_events(self.nodes.get(&slot)?);
+                self.nodes.get(&slot)?.calls.lock().unwrap().clear();
+                if let Some(ctx) = self.nodes.get_mut(&slot) {
+                    ctx.hbtrack.insert(id.clone(), (copy.heartbeat, 0, 0));
+                }
                 self.resync_ref(slot);
                 let node = self.p_node(slot);
                 Some((line, plist("ok", [node])))
@@ -885,8 +1036,103 @@ impl Exec {
                     self.nodes.get(&slot)?.cc.scheduled_for_deletion_nodes().cloned().collect();
                 sched.sort();
                 drop(_g);
+                self.liveness_monitor(slot);
+                self.sync_tracker(slot);
                 let node = self.p_node(slot);
                 Some((line, plist("ok", [plist("sched", sched.iter().map(p_id)), node])))
+            }
+            "select" => {
+                // (select (peers) (live) (dead) (seeds) script)
+                use std::net::SocketAddr;
+                let addr = |k: u64| SocketAddr::from(([10, 0, 0, k as u8], 1));
+                let set = |sx: &Sx| -> Option<HashSet<SocketAddr>> {
+                    Some(sx.list()?.iter().map(|x| x.nat().map(addr)).collect::<Option<Vec<_>>>()?.into_iter().collect())
+                };
+                let peers = set(a.first()?)?;
+                let live = set(a.get(1)?)?;
+                let dead = set(a.get(2)?)?;
+                let seeds = set(a.get(3)?)?;
+                let script = a.get(4)?;
+                let words: Vec<u64> = match script.head()? {
+                    "const" => vec![script.list()?.get(1)?.nat()?],
+                    "counter" => {
+                        let start = script.list()?.get(1)?.nat()?;
+                        let step = script.list()?.get(2)?.nat()?;
+                        (0..64u64).map(|i| start.wrapping_add(i.wrapping_mul(step))).collect()
+                    }
+                    _ => return None,
+                };
+                let mut rng = verif::ScriptedRng::new(words);
+                let r = catch_unwind(AssertUnwindSafe(|| verif::select_nodes_for_gossip(&mut rng, peers, live, dead, seeds)));
+                let back = |x: SocketAddr| match x {
+                    SocketAddr::V4(v) => v.ip().octets()[3] as u64,
+                    _ => 999,
+                };
+                match r {
+                    Ok((nodes, d, sd)) => {
+                        let mut ns: Vec<u64> = nodes.into_iter().map(back).collect();
+                        ns.sort();
+                        let o = |x: Option<SocketAddr>| x.map(|v| back(v).to_string()).unwrap_or("none".to_string());
+                        let l = plist(
+                            "selcheck",
+                            [
+                                cmd_to_string(a.first()?),
+                                cmd_to_string(a.get(1)?),
+                                cmd_to_string(a.get(2)?),
+                                cmd_to_string(a.get(3)?),
+                                cmd_to_string(script),
+                                plist("", ns.iter().map(|x| x.to_string())),
+                                o(d),
+                                o(sd),
+                            ],
+                        );
+                        Some((l, "(sel ok)".to_string()))
+                    }
+                    Err(_) => {
+                        let d = take_panic();
+                        self.monitor_hit("C17", "select-abort", &d[..d.len().min(200)]);
+                        Some(("(nop)".to_string(), p_panic(&d)))
+                    }
+                }
+            }
+            "sub" => {
+                let slot = a.first()?.nat()?;
+                let idx = a.get(1)?.nat()?;
+                let pfx = a.get(2)?.string()?;
+                let ctx = self.nodes.get_mut(&slot)?;
+                let calls = ctx.calls.clone();
+                let handle = ctx.cc.subscribe_event(pfx.clone(), move |e| {
+                    calls.lock().unwrap().push(plist(
+                        "l",
+                        [idx.to_string(), p_id(e.node), hex(e.key.as_bytes()), hex(e.value.as_bytes())],
+                    ));
+                });
+                ctx.active.insert(idx, pfx.clone());
+                ctx.handles.insert(idx, (pfx, Some(handle)));
+                Some((line, "(ok)".to_string()))
+            }
+            "unsub" => {
+                let slot = a.first()?.nat()?;
+                let idx = a.get(1)?.nat()?;
+                let ctx = self.nodes.get_mut(&slot)?;
+                if let Some((_, h)) = ctx.handles.get_mut(&idx) {
+                    if h.is_some() {
+                        ctx.active.remove(&idx);
+                    }
+                    drop(h.take());
+                }
+                Some((line, "(ok)".to_string()))
+            }
+            "forever" => {
+                let slot = a.first()?.nat()?;
+                let idx = a.get(1)?.nat()?;
+                let ctx = self.nodes.get_mut(&slot)?;
+                if let Some((_, h)) = ctx.handles.get_mut(&idx) {
+                    if let Some(h) = h.take() {
+                        h.forever();
+                    }
+                }
+                Some((line, "(ok)".to_string()))
             }
             "catchup" => {
                 // (catchup slot id (kv ...) max gc)
@@ -906,16 +1152,57 @@ impl Exec {
                 }
                 let max = a.get(3)?.nat()?;
                 let gc = a.get(4)?.nat()?;
+                drop(_g);
+                let before = self.snapshot_copy(slot, &id);
+                let remembered = verif::cc_last_heartbeat_if_deleted(&self.nodes.get(&slot)?.cc, &id).is_some();
+                let live_before: BTreeSet<ChitchatId> = self.nodes.get(&slot)?.cc.live_nodes().cloned().collect();
+                let supplied: BTreeMap<String, u64> = kvs.iter().map(|(k, v)| (k.clone(), v.version)).collect();
+                let _g = self.rt.enter();
                 let ctx = self.nodes.get_mut(&slot)?;
                 let r = catch_unwind(AssertUnwindSafe(|| {
                     ctx.cc.reset_node_state_if_update(&id, kvs.into_iter(), max, gc)
                 }));
                 drop(_g);
+                if r.is_ok() {
+                    let after = self.snapshot_copy(slot, &id);
+                    let live_after: BTreeSet<ChitchatId> = self.nodes.get(&slot)?.cc.live_nodes().cloned().collect();
+                    let mut v: Option<String> = None;
+                    if live_after != live_before {
+                        v = Some("the catch-up changed the live set".to_string());
+                    }
+                    match (&before, &after) {
+                        (None, Some(_)) if remembered => v = Some("a garbage collected member was recreated by the catch-up".to_string()),
+                        (Some(b), None) => v = Some(format!("the copy (gc {}, max {}) disappeared", b.last_gc, b.max_version)),
+                        (Some(b), Some(a)) if a != b => {
+                            if (a.last_gc, a.max_version) <= (b.last_gc, b.max_version) {
+                                v = Some(format!("copy changed but its frontier did not strictly increase: ({}, {}) -> ({}, {})", b.last_gc, b.max_version, a.last_gc, a.max_version));
+                            }
+                            for (k, _, ver, _, _) in &a.kvs {
+                                let old = b.kvs.iter().find(|e| &e.0 == k).map(|e| e.2);
+                                match supplied.get(k) {
+                                    None => v = Some(format!("after the catch-up the copy still holds key {k:?}, which the supplied state does not contain")),
+                                    Some(sv) => {
+                                        let newest = old.map(|o| o.max(*sv)).unwrap_or(*sv);
+                                        if *ver != newest {
+                                            v = Some(format!("key {k:?} has version {ver}, expected the newer of old/supplied = {newest}"));
+                                        }
+                                    }
+                                }
+                            }
+                        }
+                        _ => {}
+                    }
+                    if let Some(d) = v {
+                        self.monitor_hit("C18", "catchup", &d);
+                    }
+                } else {
+                    self.monitor_hit("C18", "catchup-abort", "reset_node_state_if_update aborted");
+                }
                 match r {
                     Ok(()) => {
                         let evs = Self::take_events(self.nodes.get(&slot)?);
                         let node = self.p_node(slot);
-                        Some((line, plist("ok", [Self::p_events(&evs), node])))
+                        Some((line, plist("ok", [self.p_evc(slot, &evs), node])))
                     }
                     Err(_) => {
                         self.poisoned = true;
@@ -972,6 +1259,8 @@ impl Exec {
                 let _g = self.rt.enter();
                 verif::cc_report_heartbeat(&mut self.nodes.get_mut(&slot)?.cc, &id, hb);
                 drop(_g);
+                self.track_heartbeat(slot, &id, hb);
+                self.sync_tracker(slot);
                 let node = self.p_node(slot);
                 Some((line, plist("ok", [node])))
             }
@@ -1018,7 +1307,8 @@ impl Exec {
                             self.monitor_hit("C14", "frontier", &v);
                         }
                         let ctx = self.nodes.get(&slot)?;
-                        Some((line, plist("ok", [name(st), name(check), Self::p_events(&evs), ns_s])))
+                        let evc = self.p_evc(slot, &evs);
+                        Some((line, plist("ok", [name(st), name(check), evc, ns_s])))
                     }
                     Err(_) => {
                         // The copy may be half-updated; generators always `setcopy` before the
@@ -1046,7 +1336,7 @@ impl Exec {
                     Ok(reset) => {
                         let evs = Self::take_events(self.nodes.get(&slot)?);
                         let node = self.p_node(slot);
-                        Some((line, plist("ok", [(reset as u8).to_string(), Self::p_events(&evs), node])))
+                        Some((line, plist("ok", [(reset as u8).to_string(), self.p_evc(slot, &evs), node])))
                     }
                     Err(_) => {
                         self.poisoned = true;
@@ -1315,6 +1605,19 @@ impl Exec {
     /// the reply.
     pub fn process_msg(&mut self, slot: u64, pm: &PMsg) -> Option<(String, String, Option<PMsg>)> {
         let msg = from_pmsg(pm);
+        // the heartbeats of the digest, as the specification sees them
+        let own_cluster = match pm {
+            PMsg::Syn { cluster_id, .. } => self.nodes.get(&slot).map(|c| c.cc.cluster_id() == cluster_id).unwrap_or(false),
+            _ => true,
+        };
+        let digest_hbs: Vec<(ChitchatId, u64)> = match pm {
+            PMsg::Syn { digest, .. } | PMsg::SynAck { digest, .. } if own_cluster => {
+                digest.iter().map(|d| (d.chitchat_id.clone(), d.heartbeat)).collect()
+            }
+            _ => Vec::new(),
+        };
+        let foreign_syn = matches!(pm, PMsg::Syn { .. }) && !own_cluster;
+        let fp_before = if foreign_syn { self.fingerprint_others(slot) } else { String::new() };
         let _g = self.rt.enter();
         let ctx = self.nodes.get_mut(&slot)?;
         let cb_before = ctx.callbacks.load(Ordering::SeqCst);
@@ -1378,12 +1681,28 @@ impl Exec {
                             None => "(noreply)".to_string(),
                         },
                         cbs.to_string(),
-                        Self::p_events(&evs),
+                        self.p_evc(slot, &evs),
                     ],
                 );
                 if let Some(d) = c20 {
                     self.monitor_hit("C20", "callback-count", &d);
                 }
+                if foreign_syn {
+                    if reply_p != Some(PMsg::BadCluster) {
+                        self.monitor_hit("C16", "foreign-syn-answered", "a SYN carrying a different cluster id was not answered with BadCluster");
+                    }
+                    if self.fingerprint_others(slot) != fp_before {
+                        self.monitor_hit("C16", "foreign-syn-state", "a SYN carrying a different cluster id changed membership, key-values or failure-detector state");
+                    }
+                }
+                for (id, hb) in &digest_hbs {
+                    // a member that was garbage collected is only re-created by a higher heartbeat
+                    let recreated = self.nodes.get(&slot).map(|c| c.cc.node_state(id).is_some()).unwrap_or(false);
+                    if recreated {
+                        self.track_heartbeat(slot, id, *hb);
+                    }
+                }
+                self.sync_tracker(slot);
                 // C05: no message ever changes the node's own namespace
                 self.check_own_copy(slot, &["C05"], "processing a message");
                 if let Some(n) = oversize {
